@@ -37,6 +37,22 @@ class PathLimit(AnalysisError):
     pass
 
 
+class ModelError(Exception):
+    """raised by an analyser-side model of a library function where the library itself would raise (name = exception class)"""
+
+    def __init__(self, name, msg=''):
+        Exception.__init__(self, '%s: %s' % (name, msg))
+        self.name = name
+
+
+class _FnRaise(Exception):
+    """every path of an inlined callee ends in a raise: the call raises"""
+
+    def __init__(self, node):
+        Exception.__init__(self, 'callee raises')
+        self.node = node
+
+
 class _PyRaise(Exception):
     """an evaluated library call / subscript raised inside a try block that has handlers: control continues in the handler"""
 
@@ -299,6 +315,12 @@ def _zeros(shape, *a, **k):
     return out
 
 
+def _fill(shape, v):
+    out = _zeros(shape if isinstance(shape, (tuple, list)) else (int(shape),))
+    out[...] = S(v)
+    return out
+
+
 def _ones(shape, *a, **k):
     out = _zeros(shape)
     out[...] = sp.Integer(1)
@@ -333,6 +355,7 @@ NP_FUNCS = {
     'numpy.broadcast_to': lambda x, shape: np.broadcast_to(np.asarray(x, dtype=object), tuple(int(v) for v in shape)).copy(),
     'numpy.atleast_2d': lambda x: np.atleast_2d(np.asarray(x, dtype=object)), 'numpy.atleast_1d': lambda x: np.atleast_1d(np.asarray(x, dtype=object)),
     'numpy.float64': lambda x: x, 'numpy.int64': lambda x: x,
+    'numpy.full': lambda shape, v, **k: _fill(shape, v),
     'numpy.identity': _identity, 'numpy.eye': _identity, 'numpy.arange': lambda *a, **k: arr([sp.Integer(i) for i in range(*[int(x) for x in a])]) if len(range(*[int(x) for x in a])) else np.empty(0, dtype=object),
     'numpy.cos': lambda x: vmap(sp.cos, x), 'numpy.sin': lambda x: vmap(sp.sin, x), 'numpy.tan': lambda x: vmap(sp.tan, x),
     'numpy.arctan': lambda x: vmap(sp.atan, x), 'numpy.arctan2': lambda y, x: sp.atan2(y, x),
@@ -464,6 +487,7 @@ class SymEval:
         self.trace = []
         self.text_mode = False  # f-strings / %-formatting become Text values
         self.try_depth = 0
+        self.fn_stack = []
         self.module = None      # ast.Module: module-level `NAME = {}` / `[]` / constant bindings become visible (one fresh object per evaluator)
         self.np_override = {}   # dotted numpy name -> model function (consulted before NP_FUNCS)
         self.globals = {}       # module-level names visible in every inlined function (rule-provided models of imports)
@@ -546,6 +570,19 @@ class SymEval:
                     return sorted(x)
                 raise Opaque('sorted() of symbolic values')
             return _sorted
+        if self.fn_stack:
+            fn = self.fn_stack[-1]
+            loc = getattr(fn, '_am_locals', None)
+            if loc is None:
+                loc = {x.id for x in ast.walk(fn) if isinstance(x, ast.Name) and isinstance(x.ctx, ast.Store)}
+                try:
+                    fn._am_locals = loc
+                except Exception:
+                    pass
+            if n.id in loc:
+                if self.try_depth > 0:
+                    raise _PyRaise('UnboundLocalError')
+                raise WouldRaise('UnboundLocalError: local variable %r is read before it is assigned on this path' % n.id)
         raise Opaque('unbound name %s' % n.id)
 
     def e_UnaryOp(self, n, p):
@@ -706,6 +743,10 @@ class SymEval:
             return list(it)
         if is_arr(it):
             return [it[i] for i in range(it.shape[0])]
+        if isinstance(it, PyStub) and hasattr(it, '__iter__'):
+            return list(it)
+        if isinstance(it, dict):
+            return list(it.keys())
         raise Opaque('loop over non-literal iterable ' + norm(node))
 
     def e_Attribute(self, n, p):
@@ -914,8 +955,12 @@ class SymEval:
             try:
                 kw2 = kw if getattr(f, '_wants_dtype', False) else {k: v for k, v in kw.items() if k not in ('dtype',)}
                 return f(*args, **kw2)
-            except (Opaque, AnalysisError, _PyRaise, _Break, _Continue):
+            except (Opaque, AnalysisError, _PyRaise, _Break, _Continue, _FnRaise):
                 raise
+            except ModelError as e:
+                if self.try_depth > 0:
+                    raise _PyRaise(e.name, e)
+                raise WouldRaise('%s in %s' % (e, norm(n)))
             except Exception as e:
                 if self.try_depth > 0:
                     raise _PyRaise(type(e).__name__, e)
@@ -959,6 +1004,8 @@ class SymEval:
         try:
             paths = self.run_fn(fn, args, dict(kw), conds=p.conds)
             live = [q for q in paths if q.done != 'raise']
+            if not live and paths:
+                raise _FnRaise(paths[0].raised)
             if len(live) != 1:
                 raise Opaque('call to %s does not reduce to one path (%d live)' % (fn.name, len(live)))
             p.conds = live[0].conds
@@ -970,12 +1017,15 @@ class SymEval:
         """all syntactic paths through fn: list of Path (done in {'return','raise',None})"""
         e = self.bind(fn, list(args), dict(kw or {})) if env is None else dict(env)
         start = Path(e, conds)
+        self.fn_stack.append(fn)
         try:
             paths = self.block(fn.body, [start])
         except _PyRaise as ex:
             if self.try_depth > 0:
                 raise
             raise WouldRaise('uncaught %s in %s: %s' % (ex.name, fn.name, ex.exc))
+        finally:
+            self.fn_stack.pop()
         for q in paths:
             if q.done is None:
                 q.done = 'return'
@@ -1004,6 +1054,12 @@ class SymEval:
         m = getattr(self, 's_' + type(s).__name__, None)
         if m is None:
             raise Opaque('statement kind %s: %s' % (type(s).__name__, norm(s)[:80]))
+        if isinstance(s, (ast.Assign, ast.AugAssign, ast.Expr, ast.Return, ast.AnnAssign)):
+            try:
+                return m(s, p)
+            except _FnRaise as e:
+                p.done, p.raised = 'raise', e.node
+                return [p]
         return m(s, p)
 
     def s_Expr(self, s, p):
@@ -1068,6 +1124,8 @@ class SymEval:
                 else:
                     key = '_%s%s' % (base.cls.name, t.attr) if (base.cls is not None and t.attr.startswith('__') and not t.attr.endswith('__')) else t.attr
                     base.attrs[key] = v
+            elif isinstance(base, PyStub):
+                setattr(base, t.attr, v)
             elif is_arr(base) and t.attr == 'shape':
                 base.shape = tuple(int(x) for x in v)
             else:
@@ -1230,7 +1288,7 @@ class SymEval:
                 self.try_depth -= 1
         normal = []
         for q in paths:
-            if q.done == 'raise' and s.handlers and q.raised is not None and any(q.raised is x for b in s.body for x in ast.walk(b)):
+            if q.done == 'raise' and s.handlers and q.raised is not None:
                 if isinstance(q.raised, ast.Assert):
                     name = 'AssertionError'
                 else:
